@@ -320,6 +320,7 @@ def run(idx: ProgramIndex, rep: Report, tier: str):
     grid_product_structure(idx, rep)
     wrappers_and_member_terms(idx, rep)
     flat_index_strides(idx, rep)
+    sgpr_single_source(idx, rep)
 
 
 # ---- C09-5: one enumeration order of the grid points for every producer and consumer ---------------------------------------
@@ -872,3 +873,40 @@ def flat_index_strides(idx: ProgramIndex, rep: Report):
                 "the stride is computed from the sizes of the later dimensions" if not probs else
                 "%s is not the product of the sizes of the later grid dimensions: for a grid with unequal sizes per dimension ([10, 16]) the flat indices address other grid nodes (or leave the grid): the interpolated kernel is 0.8 from the base kernel instead of 2e-3 and is no longer exact at the nodes" % "; ".join(probs), {})
     rep.floor("C09-11", "strides of the flattened interpolation index", n, 1)
+
+
+# ---- C09-12 --------------------------------------------------------------------------------------------------------
+def sgpr_single_source(idx: ProgramIndex, rep: Report):
+    """InducingPointKernel._get_covariance is the one place that decides between the Nystrom matrix and its diagonal-corrected form
+    (training / evaluation mode, settings.sgpr_diagonal_correction).  Every value forward returns - the full matrix and the diag=True
+    short form alike - has to be taken from that covariance; a return computed from the base kernel directly is right only for one
+    state of the setting (eval mode with the correction on) and disagrees with the full matrix otherwise."""
+    rep.rule("C09-12", "every value InducingPointKernel.forward returns derives from self._get_covariance(x1, x2) (or its guard consults settings.sgpr_diagonal_correction itself): the diagonal is the diagonal of the matrix the same call would return")
+    from .c10 import _tests_around
+    I = idx.find_class("InducingPointKernel")
+    fw = I.methods.get("forward")
+    if fw is None:
+        raise AnalysisError("C09-12: InducingPointKernel.forward not found (anchor)")
+    sn = fw.params[0]
+
+    def derives(e: ast.AST, seen=()) -> bool:
+        for x in ast.walk(e):
+            if isinstance(x, ast.Call) and chain(x.func) == "%s._get_covariance" % sn:
+                return True
+            if isinstance(x, ast.Name) and x.id not in seen:
+                for a in ast.walk(fw.node):
+                    if isinstance(a, ast.Assign) and any(isinstance(t, ast.Name) and t.id == x.id for t in a.targets) and derives(a.value, seen + (x.id,)):
+                        return True
+        return False
+    rets = [r for r in ast.walk(fw.node) if isinstance(r, ast.Return) and r.value is not None]
+    if len(rets) < 2:
+        raise AnalysisError("C09-12: InducingPointKernel.forward no longer returns a matrix and a diagonal (anchor)")
+    probs = []
+    for r in rets:
+        if derives(r.value):
+            continue
+        if any("sgpr_diagonal_correction" in src(t) for t, pos in _tests_around(fw.node, r)):
+            continue
+        probs.append("line %d returns `%s`, which is not taken from self._get_covariance(...) and whose guard does not consult settings.sgpr_diagonal_correction: under sgpr_diagonal_correction(False) in evaluation mode the diagonal is the base kernel's (1.70) while the matrix is the Nystrom one (1.56 - 1.67 on its diagonal)" % (r.lineno, src(r.value)[:60]))
+    rep.add("C09-12", "%s:InducingPointKernel.forward[single source]" % I.module.name, fw.where, not probs,
+            "%d returns, all taken from self._get_covariance" % len(rets) if not probs else "; ".join(probs), {"returns": len(rets)})
